@@ -498,8 +498,8 @@ def compare_exec(impl_lines, model_lines):
     fwd, bwd = {}, {}
     n = max(len(impl_lines), len(model_lines))
     for i in range(n):
-        a = impl_lines[i] if i < len(impl_lines) else "<none>"
-        b = model_lines[i] if i < len(model_lines) else "<none>"
+        a = (impl_lines[i] if i < len(impl_lines) else "<none>").rstrip()
+        b = (model_lines[i] if i < len(model_lines) else "<none>").rstrip()
         ta, tb = a.split(" "), b.split(" ")
         if len(ta) >= 3 and len(tb) >= 3 and ta[1] == tb[1] and ta[1] not in ("ret", "fence", "crit", "PANIC"):
             va, vb = ta[2], tb[2]
